@@ -413,7 +413,7 @@ def gen_desc(rnd, ncmds=None, tools=("shell", "shell", "shell", "shell", "phony"
             if rnd.random() < 0.25:
                 c.outputs[0] = "out/deep/%s/%s.o" % (name.lower(), name.lower())
             if virtuals and rnd.random() < virtual_out_p:
-                c.outputs.append("<v%d>" % i)
+                c.outputs.insert(rnd.randint(0, len(c.outputs)), "<v%d>" % i)   # a virtual output may be declared before, between or after the files
             c.salt = "s%d" % rnd.randint(0, 3)
             c.link_outs = rnd.random() < 0.15
             c.attrs["description"] = "RUN " + name
